@@ -872,6 +872,41 @@ def _foreign_char_returns(prog, b, seen):
             nm = strip_generics(mir.callee_name(t) or "")
             if nm in ("std::ffi::CString::into_raw", "std::ptr::null", "std::ptr::null_mut"):
                 continue
+            # `.map_or(null(), |s| s.into_raw())` / `.map(..into_raw..).unwrap_or(null())`: both arms are of the allowed kinds
+            if re.search(r"(Option|Result)::(map_or|map_or_else|unwrap_or|unwrap_or_else)$", nm):
+                vals = []
+                for a in t["args"][1:] if nm.endswith(("map_or", "map_or_else")) else t["args"]:
+                    dv = G.describe(b, a)
+                    if dv.kind == "call" and dv.v in ("std::ptr::null", "std::ptr::null_mut"):
+                        vals.append("null")
+                    elif dv.kind == "const" and dv.v == 0:
+                        vals.append("null")
+                    elif dv.kind == "agg" and dv.v == "closure":
+                        cl = None
+                        pl0 = op_place(a)
+                        for bi3 in range(b.n):
+                            for st3 in b.blocks[bi3]["stmts"]:
+                                if st3["k"] == "assign" and st3["rv"]["k"] == "agg" and st3["rv"].get("ak") == "closure" and pl0 is not None and st3["lhs"]["l"] == pl0["l"]:
+                                    cl = prog.bodies.get(st3["rv"].get("closure"))
+                        if cl is not None:
+                            r0 = G.describe_place(cl, {"l": 0, "p": []})
+                            cnames = [strip_generics(mir.callee_name(tt) or "") for _b4, tt in cl.calls()]
+                            if (r0.kind == "call" and r0.v == "std::ffi::CString::into_raw") or ("std::ffi::CString::into_raw" in cnames and len(cnames) == 1):
+                                vals.append("into_raw")
+                            else:
+                                vals.append("?" + repr(r0)[:40])
+                        else:
+                            vals.append("?closure")
+                    elif dv.kind == "fn" and dv.v == "std::ffi::CString::into_raw":
+                        vals.append("into_raw")
+                    elif dv.kind == "call" and re.search(r"(Option|Result)::map$", dv.v):
+                        vals.append("mapped")
+                    else:
+                        vals.append("?" + repr(dv)[:40])
+                if vals and all(x in ("null", "into_raw", "mapped") for x in vals) and "into_raw" in vals + (["into_raw"] if "mapped" in vals else []):
+                    continue
+                bad.append((bi2, "%s(%s)" % (nm.split("::")[-1], ", ".join(vals))))
+                continue
             hb = prog.get(nm) or next((x for x in prog.bodies.values() if strip_generics(x.id) == nm and x.rec["kind"] != "Closure"), None)
             if hb is not None and hb.file.startswith("src/c_api/") and hb.id not in seen and re.match(r"^\*(const|mut) (i8|u8|std::ffi::c_char|core::ffi::c_char|std::os::raw::c_char)$", hb.rec.get("sig_output", "")):
                 inner = _foreign_char_returns(prog, hb, seen)
